@@ -1120,6 +1120,14 @@ def C13(c):
             lb_unsorted = num(impl_o.lower_bound(sh, rem, are_sums_in_ascending_order=False))
             c.check_direct("objective.lower_bound", {"vals": sh, "obj": o, "rem": rem}, "sorted-flag-dependence", lb_sorted == lb_unsorted,
                            [lb_sorted, lb_unsorted], "the bound must not depend on whether the caller says the sums are sorted")
+            # the same sums as a tuple / numpy array of signed or UNSIGNED integers (the documented extension point takes any sequence of sums)
+            kind_ = rng.choice(["tuple", "array", "uarray", "uarray"])
+            try:
+                lb_alt = num(impl_o.lower_bound(_seq_as(kind_, sums), rem, are_sums_in_ascending_order=True))
+            except Exception as ex:      # noqa
+                lb_alt = {"error": exc_name(ex)}
+            c.check_direct("objective.lower_bound", {"vals": list(sums), "obj": o, "rem": rem, "sums_given_as": kind_}, "presentation-dependence", lb_alt == lb_sorted,
+                           lb_alt, f"the bound computed for the same sums as a list: {lb_sorted}")
             if small:
                 best = min(obj_value(o, [s + a for s, a in zip(sums, adds)]) for adds in _compositions(rem, k))
                 c.check_direct("objective.lower_bound", {"vals": list(sums), "obj": o, "rem": rem}, "inadmissible-bound", lb_sorted == "-inf" or lb_sorted <= best,
